@@ -170,6 +170,9 @@ def a_invalid_inputs(s, n):
     call(s.parse, dict(_identity(n), extensions={'extension-definition--' + C.mkuuid(n, 'noise-ext'): {'extension_type': 'toplevel-property-extension'}, }, rank=1))
     call(s.versioning.new_version, _identity(n), id='identity--' + C.mkuuid(n + 1, 'noise'))
     call(s.parse_observable, {'type': 'file', 'spec_version': '2.1'}, version='2.1')
+    # refused half-way through the computation of a deterministic id
+    call(lambda: s.v21.AutonomousSystem(number=10 ** 400))
+    call(lambda: s.v21.File(name='f', extensions={'extension-definition--' + C.mkuuid(n, 'noise-bad'): {'extension_type': 'property-extension', 'a': 'b', 'n': float('nan')}}))
 
 
 def a_object_factory(s, n):
